@@ -140,8 +140,10 @@ func (t *Tracer) hook(ev string, c *client.Conn, a ...interface{}) {
 		t.cond.Broadcast()
 	case "conn.up":
 		t.gen++
-		if s, ok := a[0].(net.Conn); ok {
-			t.gens[s] = t.gen
+		if len(a) > 0 {
+			if s, ok := a[0].(net.Conn); ok {
+				t.gens[s] = t.gen
+			}
 		}
 		e.Gen = t.gen
 		e.Nwg = 3
